@@ -50,7 +50,8 @@ Alphabet == <<
   [h |-> 1, c |-> C("add_library", <<A("al"), K("ALIAS"), A("n1")>>)],
   [h |-> 1, c |-> C("add_executable", <<A("e1"), K("IMPORTED")>>)],
   [h |-> 1, c |-> C("add_custom_target", <<A("ct"), K("COMMAND"), A("tool"), A("x1"), K("DEPENDS"), A("dep1"), K("WORKING_DIRECTORY"), A("/wd"), K("VERBATIM")>>)],
-  [h |-> 1, c |-> C("add_custom_target", <<A("ct"), K("ALL"), A("tool0"), A("y1"), K("COMMAND"), A("tool2"), <<"y2", "y3">>, K("SOURCES"), A("s.c")>>)],
+  [h |-> 1, c |-> C("add_custom_target", <<A("ct"), K("ALL"), A("tool0"), A("y1"), K("COMMAND"), A("tool2"), <<"y2", "y3">>>>)],
+  [h |-> 1, c |-> C("add_custom_target", <<A("ct2"), K("COMMAND"), A("tool3"), K("DEPENDS"), A("dep2"), K("SOURCES"), A("s.c")>>)],
   [h |-> 1, c |-> C("set_property", <<K("TARGET"), A("n1"), K("PROPERTY"), A("P"), <<"p1", "p2">>>>)],
   [h |-> 0, c |-> C("set_property", <<K("TARGET"), A("n1"), A("i1"), K("PROPERTY"), A("P"), A("p3"), A("p4")>>)],
   [h |-> 1, c |-> C("set_property", <<K("TARGET"), A("n1"), K("APPEND"), K("PROPERTY"), A("P"), A("p5")>>)],
@@ -65,10 +66,12 @@ Alphabet == <<
   [h |-> 1, c |-> C("target_link_libraries", <<A("i1"), K("INTERFACE"), A("l7"), A("n1")>>)],
   [h |-> 1, c |-> C("target_link_libraries", <<A("n1"), K("LINK_PRIVATE"), A("l8"), K("LINK_PUBLIC"), A("l9")>>)],
   [h |-> 1, c |-> C("target_link_libraries", <<A("n1"), K("LINK_INTERFACE_LIBRARIES"), A("l10")>>)],
-  [h |-> 1, c |-> C("target_include_directories", <<A("n1"), K("PUBLIC"), A("/i1"), K("PRIVATE"), A("/i2"), K("INTERFACE"), A("/i3")>>)],
-  [h |-> 1, c |-> C("target_include_directories", <<A("n1"), K("BEFORE"), K("PRIVATE"), A("/i4"), A("/i5")>>)],
+  [h |-> 0, c |-> C("target_include_directories", <<A("n1"), K("PUBLIC"), A("/i1"), K("PRIVATE"), A("/i2"), K("INTERFACE"), A("/i3")>>)],
+  [h |-> 0, c |-> C("target_include_directories", <<A("n1"), K("BEFORE"), K("PRIVATE"), A("/i4"), A("/i5")>>)],
+  [h |-> 1, c |-> C("target_include_directories", <<A("n1"), K("BEFORE"), K("PUBLIC"), A("/i9")>>)],
+  [h |-> 1, c |-> C("target_include_directories", <<A("n1"), K("PRIVATE"), A("/i10")>>)],
   [h |-> 1, c |-> C("target_include_directories", <<A("n1"), K("SYSTEM"), K("AFTER"), K("PUBLIC"), A("/i6")>>)],
-  [h |-> 1, c |-> C("target_include_directories", <<A("i1"), K("SYSTEM"), K("INTERFACE"), <<"/i7", "/i8">>>>)],
+  [h |-> 0, c |-> C("target_include_directories", <<A("i1"), K("SYSTEM"), K("INTERFACE"), <<"/i7", "/i8">>>>)],
   [h |-> 1, c |-> C("target_compile_definitions", <<A("n1"), K("PRIVATE"), A("D1"), K("INTERFACE"), A("D2=1"), K("PUBLIC"), A("D3")>>)],
   [h |-> 1, c |-> C("target_compile_definitions", <<A("i1"), K("INTERFACE"), A("D4")>>)],
   [h |-> 1, c |-> C("target_compile_options", <<A("n1"), K("PRIVATE"), A("-O1"), K("PUBLIC"), A("-O2")>>)],
@@ -109,17 +112,6 @@ Total == /\ DOMAIN st = {"vars", "cache", "tg", "delayed", "stored", "errs"}
 Incremental == st = Fold(Start, hist)
 
 \* ---- which commands matter for a component -----------------------------------------------------
-\* the targets a command names (as subject) and the variables it writes
-Subjects(c) ==
-    CASE c.cmd \in {"add_library", "add_executable", "add_custom_target", "add_dependencies"} \cup TargetCommands ->
-           IF c.args # <<>> THEN RangeOf(c.args[1]) ELSE {}
-      [] c.cmd = "set_property" ->
-           LET pi == IndexOf(c.args, Kw("PROPERTY")) IN
-           IF pi = 0 THEN {} ELSE RangeOf(Flat(SubSeq(c.args, 2, pi - 1))) \ {"APPEND", "APPEND_STRING"}
-      [] c.cmd = "set_target_properties" ->
-           LET pi == IndexOf(c.args, Kw("PROPERTIES")) IN IF pi = 0 THEN {} ELSE RangeOf(Flat(SubSeq(c.args, 1, pi - 1)))
-      [] OTHER -> {}
-VarsOf(c) == IF c.cmd \in {"set", "unset"} /\ c.args # <<>> THEN RangeOf(c.args[1]) ELSE {}
 IsProtocol(c) == c.cmd \in {"meson_ps_reload_vars", "meson_ps_execute_delayed_calls"} \/ "MESON_PS_DELAYED_CALLS" \in VarsOf(c)
 UsesProtocol(h) == \E i \in 1..Len(h) : IsProtocol(h[i])
 
